@@ -113,7 +113,7 @@ def rg1_registration_order(ctx, rep):
             t = ctx.prog.bp(m).arg_term(s.bb, 0)
             v = ctx.prog.bp(m).arg_term(s.bb, 1)
             may, must = ctx.lr(m).held_at(s.bb)
-            if strip_wrap(t) == ("field", ("param", 1), fld) and A.lock_id(fld) in must and strip_clone(v) == ("param", 2):
+            if ctx.base_term(t) == ("field", ("param", 1), fld) and A.lock_id(fld) in must and strip_clone(v) == ("param", 2):
                 good = True
         rep.check(good, R, "store-%s-pushes-under-lock" % name, ctx.where(m), "%s pushes its argument onto `%s` under the lock" % (name, fld), "%s does not push its argument onto `%s` under its lock" % (name, fld))
 
@@ -312,7 +312,8 @@ def su3_shutdown_release(ctx, rep):
         rep.check(lock in must, R, "release-under-list-lock:%s:%s" % (s2.ck.split("::")[-1], short(s2.body.path)), s2.where, "runs with %s held" % lock, "runs without %s: a concurrent unsubscribe() can release the same subscriber again" % lock)
     bodies = {}
     for k, s2 in clears:
-        rb = ctx.helper_root(s2.body)
+        from mirq.locks import LOCK_CALLS
+        rb = ctx.helper_root(s2.body, need=lambda reach: ctx.reach_has_site(reach, lambda x: x.ck in LOCK_CALLS and "Subscriber<" in ((x.fn.get("args") or [""])[0])))
         bodies[rb.path] = rb
     for b in bodies.values():
         rep.note_fn(b.path)
@@ -332,6 +333,30 @@ def su3_shutdown_release(ctx, rep):
                 good = len(cl) == 1 and all(p.events.index(u) < p.events.index(cl[0]) for u in un)
             rep.check(good, R, "unsubscribe-all-then-clear:" + short(b.path), ctx.where(b), "path [%s]: on_unsubscribe for the elements, then one clear" % p.describe(), "path [%s]: %d clear(s), order broken" % (p.describe(), len(cl)))
         rep.floor(R, "release paths", n, 2, ctx.where(b))
+        # every arm that empties the list releases its elements: for each removal site some path
+        # through it has visited the on_unsubscribe loop (before a clear / while draining)
+        per_site = {}
+        for p in pe.paths:
+            if p.end != "return":
+                continue
+            for c_ in [e for e in p.calls() if is_full_removal(e.site)]:
+                k_ = (c_.site.body.path, c_.site.bb)
+                un_ = [e for e in p.calls() if e.site is not None and A.event(e.site) == "UNSUB"]
+                # `.iter().for_each(|s| s.on_unsubscribe())`: the combinator call stands for the loop
+                for e in p.calls():
+                    if e.ck == "std::iter::Iterator::for_each":
+                        cl_ = [st for a_ in e.args for st in subterms(a_) if st[0] == "agg" and st[1].startswith("closure:")]
+                        cb_ = ctx.prog.by_path.get(cl_[0][1][8:]) if len(cl_) == 1 else None
+                        if cb_ is not None and any(A.event(x) == "UNSUB" for x in ctx.prog.sites(cb_)):
+                            un_.append(e)
+                if c_.ck == "std::vec::Vec::drain":
+                    hit = any(p.events.index(u) > p.events.index(c_) for u in un_)
+                else:
+                    hit = any(p.events.index(u) < p.events.index(c_) for u in un_)
+                per_site[k_] = (per_site.get(k_, (False, c_))[0] or hit, c_)
+        for k_, (hit, c_) in sorted(per_site.items()):
+            rep.check(hit, R, "arm-releases-before-emptying:" + short(b.path), c_.site.where, "the arm that empties the list calls on_unsubscribe on its elements",
+                      "this arm empties the subscriber list without calling on_unsubscribe on the elements: subscribers still registered at shutdown are never released")
         # the release survives a poisoned list lock (a subscriber callback may have panicked under
         # it): the lock result is matched / recovered with into_inner, never unwrapped
         for p in pe.paths:
